@@ -500,3 +500,29 @@ func injectEvmScenarios(r *Rng, in hInput, n int) hInput {
 	}
 	return in
 }
+
+// genesisBaseAccounts: genesis mutation placing BaseAccounts at future CREATE addresses.
+func genesisBaseAccounts(at []hBaseAt) func(gs haqqtypes.GenesisState) {
+	if len(at) == 0 {
+		return nil
+	}
+	return func(gs haqqtypes.GenesisState) {
+		var ag authtypes.GenesisState
+		chainEnc.Codec.MustUnmarshalJSON(gs[authtypes.ModuleName], &ag)
+		accs, err := authtypes.UnpackAccounts(ag.Accounts)
+		if err != nil {
+			panic(err)
+		}
+		for _, x := range at {
+			b := ((x.B % chainNAccts) + chainNAccts) % chainNAccts
+			ad := crypto.CreateAddress(chainAcct(b).Eth, x.K)
+			accs = append(accs, authtypes.NewBaseAccount(sdk.AccAddress(ad.Bytes()), nil, 0, 0))
+		}
+		packed, err := authtypes.PackAccounts(accs)
+		if err != nil {
+			panic(err)
+		}
+		ag.Accounts = packed
+		gs[authtypes.ModuleName] = chainEnc.Codec.MustMarshalJSON(&ag)
+	}
+}
